@@ -132,6 +132,16 @@ def s16(x):
     return x - 65536 if x >= 32768 else x
 
 
+def precondition_met(func, w):
+    if func == "pow_nbin_mask":
+        return 1 <= w["n"] <= 64
+    if not (0 <= w["fn"] < G.HYPERFRAME):
+        return False
+    if func == "rfch_get_params" and not (w["dtype"] != 0 and w["h"] != 0):
+        return True
+    return 0 <= w["hsn"] <= 63 and 0 <= w["maio"] <= 63 and 1 <= w["n"] <= 64
+
+
 def replay_c(payload):
     w = payload["inputs"]
     func = w.get("func")
@@ -140,6 +150,10 @@ def replay_c(payload):
         res = R.run_harness(harness(), harness_flags(), ["table", max(k, 0)])
         obs = R.kv_output(res.get("stdout", ""))
         exp = {"len": len(M.RNTABLE)} if k < 0 else {"val": M.RNTABLE[k]}
+    elif func in ("pow_nbin_mask", "rfch_hop_seq_gen", "rfch_get_params") and not precondition_met(func, w):
+        # a replay only counts for inputs that satisfy the contract's pre-condition
+        return {"confirmed": False, "observed": "model input outside the pre-condition (HSN/MAIO <= 63, 1 <= N <= 64, FN in the hyperframe)",
+                "expected": "n/a", "precondition_met_by_model_input": False}
     elif func == "pow_nbin_mask":
         n = w["n"]
         res = R.run_harness(harness(), harness_flags(), ["mask", n])
